@@ -13,7 +13,14 @@ if 'sources' in case: srcs = case['sources']
 elif 'sources_in_order' in case: srcs = case['sources_in_order']
 elif 'with_block' in case: srcs = None; runs = [[case['with_block']], [case['inlined']]]
 elif 'source' in case: srcs = [case['source']]
-elif 'program' in case: srcs = [case['program']]
+elif 'program' in case:
+    prog = case['program']
+    # C13 records the position variant as `PROGRAM   -- written as `SOURCE``
+    if '-- written as `' in prog: prog = prog.split('-- written as `', 1)[1].rstrip('`')
+    srcs = [prog]
+elif k == 'hang':
+    print('(the noted case is re-run with a 30 s time limit)')
+    srcs = [case.get('case_noted_by_the_stuck_thread', '')]
 elif 'lines' in case: srcs = case['lines']; env['XMC_REPLAY_STYLE'] = 'compile+run'
 elif 'rejected_source' in case:
     srcs = [h.split(': ', 1)[1] for h in case.get('history', [])] + [case['rejected_source'], 'depth']
@@ -25,6 +32,9 @@ if 'with_block' in case:
         print('---'); subprocess.run([xmc, 'replay-seq'] + r, env=env)
 elif srcs:
     print('--- re-running on the real interpreter')
-    subprocess.run([xmc, 'replay-seq'] + [s for s in srcs if not s.startswith('/')], env=env)
+    try:
+        subprocess.run([xmc, 'replay-seq'] + [s for s in srcs if not s.startswith('/') and not s.startswith('(host)')], env=env, timeout=30)
+    except subprocess.TimeoutExpired:
+        print('... did not finish within 30 s')
 else:
     print('(this record is replayed by re-running the check; it has no source texts)')
